@@ -151,9 +151,9 @@ for version in ('2.0',):
 
 # ---- rounding functions, abs, unary and additive/multiplicative operators --------------------
 
-def argument_case(version, symbol, kind, nitems=1, extra_hooks=None, fields=None):
+def argument_case(version, symbol, kind, nitems=1, extra_hooks=None, fields=None, kinds=None):
     def setup(S, ex):
-        arg = KINDS[kind](S, 'arg', ex)
+        arg = (kinds or KINDS)[kind](S, 'arg', ex)
         f = {'context': NONE}
         f.update(fields or {})
         tok = mk_token(version, symbol, parser=mk_parser(version, False), nitems=nitems, **f)
@@ -504,6 +504,73 @@ for k1 in ('int', 'dec', 'float', 'xsfloat'):
             native=get_operands_native,
             samples=lambda rng, k1=k1, k2=k2: ({'a': x, 'b': y} for x in PSAMPLE[k1] for y in PSAMPLE[k2]),
             expect_min_obligations=2))
+
+
+def _float_new(v):
+    """T-FLOATNEW: hand-written model of datatypes.Float.__new__ on a float argument (NaN kept, values beyond +-3.4028235E38 become
+    infinities, values inside +-1e-37 are flushed to a zero of the same sign, anything else is kept): trusted, cross-checked by the
+    bounded stand-in xs_float_types_and_special_values"""
+    big = z3.RealVal('340282350000000000000000000000000000000')
+    tiny = z3.RealVal(1) / z3.RealVal('1' + '0' * 37)
+    fin = z3.And(z3.Not(v.nan), v.inf == 0)
+    over, under = z3.And(fin, v.val > big), z3.And(fin, v.val < -big)
+    flush = z3.And(fin, v.val > -tiny, v.val < tiny)
+    return VFloat(v.nan, z3.If(over, 1, z3.If(under, -1, v.inf)), z3.If(z3.Or(over, under, flush), z3.RealVal(0), v.val),
+                  z3.If(over, False, z3.If(under, True, v.neg)), XsFloat)
+
+
+def xsfloat_case(symbol):
+    def setup(S, ex):
+        arg = PKINDS['xsfloat'](S, 'arg', ex)
+        tok = mk_token('2.0', symbol, parser=mk_parser('2.0', False), nitems=1, context=NONE)
+        ctx = mk_context()
+        hooks = std_hooks(tok, {
+            'self.get_argument': lambda ex, node, a, kw: arg,
+            # the builtin float operations reached through super() act on the receiver, which is `arg`
+            'super(Float, self).__neg__': lambda ex, node, a, kw: VFloat(arg.nan, -arg.inf, -arg.val, z3.If(arg.nan, arg.neg, z3.Not(arg.neg))),
+            'super(Float, self).__pos__': lambda ex, node, a, kw: VFloat(arg.nan, arg.inf, arg.val, arg.neg),
+            'super(Float, self).__abs__': lambda ex, node, a, kw: VFloat(arg.nan, z3.If(arg.inf < 0, -arg.inf, arg.inf), z3.If(arg.val >= 0, arg.val, -arg.val), False),
+            'self.__class__': lambda ex, node, a, kw: _float_new(a[0]),
+        })
+        return Case([tok, ctx], hooks=hooks, label='xsfloat')
+    return setup
+
+
+def xs_float_invariant(x):
+    """the representation invariant of datatypes.Float values (established by Float.__new__)"""
+    return not is_finite(x) or (abs(exact(x)) <= 340282350000000000000000000000000000000 and (exact(x) == 0 or abs(exact(x)) * 10 ** 37 >= 1))
+
+
+# unary operators and the rounding functions on xs:float (datatypes.Float): the result is an xs:float with the double-precision value
+XSF_SAMPLES = lambda rng: ({'arg': XsFloat(x)} for x in (0.0, -0.0, 1.5, -2.5, 0.5, -0.5, 3e38, 1e-30, math.inf, -math.inf, math.nan, 2.0, -7.25))    # noqa
+for sym, name, spec in (('-', 'unaryminus', '-exact(arg)'), ('+', 'unaryplus', 'exact(arg)')):
+    CONTRACTS.append(Contract(
+        f'{name}.xsfloat', 'C06', token_method('2.0', sym, 'evaluate'),
+        xsfloat_case(sym), pre=['xs_float_invariant(arg)'],
+        inline=('Float.__neg__', 'Float.__pos__'),
+        post=[
+            ('value', f"not is_finite(arg) or (returned and exact(result) == {spec})"),
+            ('result_is_xs_float', "returned and class_name(result) == 'Float'"),
+            ('nan_inf', "is_finite(arg) or (returned and is_nan(result) == is_nan(arg) and inf_sign(result) == "
+                        + ("-inf_sign(arg)" if sym == '-' else "inf_sign(arg)") + ")"),
+            ('negative_zero', "not (is_finite(arg) and exact(arg) == 0) or sign_bit(result) == "
+                              + ("(not sign_bit(arg))" if sym == '-' else "sign_bit(arg)")),
+        ],
+        specs=SPECS2 + [xs_float_invariant], native=unary_native('2.0', f'{sym}$a'), samples=XSF_SAMPLES, expect_min_obligations=4,
+        notes=['T-FLOATNEW: Float.__new__ is represented by a hand-written model (clamps of the single-precision range)']))
+for sym, spec in (('floor', 'is_floor(result, arg)'), ('ceiling', 'is_ceiling(result, arg)'), ('abs', 'exact(result) == abs(exact(arg))')):
+    CONTRACTS.append(Contract(
+        f'{sym}.xsfloat', 'C06', token_method('2.0', sym, 'evaluate'),
+        xsfloat_case(sym), pre=['xs_float_invariant(arg)'],
+        inline=('Float.__abs__',),
+        post=[
+            ('value', f"not is_finite(arg) or (returned and {spec})"),
+            ('result_is_xs_float', "not returned or class_name(result) == 'Float'"),
+            ('zero_results_sign', "not (is_finite(arg) and returned and exact(result) == 0) or sign_bit(result) == " + ("False" if sym == 'abs' else "sign_bit(arg)")),
+            ('nan_inf_passthrough', "is_finite(arg) or (returned and is_nan(result) == is_nan(arg) and inf_sign(result) == " + ("abs(inf_sign(arg))" if sym == 'abs' else "inf_sign(arg)") + ")"),
+        ],
+        specs=SPECS2 + [xs_float_invariant], native=unary_native('2.0', f'{sym}($a)'), samples=XSF_SAMPLES, expect_min_obligations=4,
+        notes=['T-FLOATNEW: Float.__new__ is represented by a hand-written model (clamps of the single-precision range)']))
 
 
 # ---- bounded stand-ins (never counted as proved) ------------------------------------------------
